@@ -292,7 +292,7 @@ impl Module for M {
          20 unequal radius sets (incl. radii larger than the rectangle and overlapping opposite corners) x 12 sizes, even sizes with half-side radii, \
          seeded random sizes/radii <= 100 (quick 400, thorough 50 000); rrect.confine: 4 rectangle sizes x radius grid {0,1,3,6,12,60}^4 for two corners x 3 settings of the \
          other two, plus random radii up to u32::MAX; rrect.styled/areas: sizes 0..=7 squared x widths 0..=4 x 3 alignments x 4 colour options x 2 target boxes \
-         (unbounded, clipping) x 3 of 6 radius sets in rotation, 6 tall-thin / wide-flat shapes with one elongated corner radius x 4 corners x 2 alignments (the known finding `:confined-radii`), plus seeded random larger cases. Non-trivial: width and height >= 1 (points), and a colour set (styled), \
+         (unbounded, clipping) x 3 of 6 radius sets in rotation, 6 tall-thin / wide-flat shapes with one elongated corner radius x 4 corners x 2 alignments (the known finding `:confined-radii`), plus seeded random larger cases and a seeded random family of tall-thin / wide-flat shapes (short side 2..=9, long side 12..=64) with one or two elongated corner radii, widths 1..=3, all alignments and colour options (quick 500, thorough 6000; counter rrect:areas:confined-radii). Non-trivial: width and height >= 1 (points), and a colour set (styled), \
          some radius pair not fitting (confine); distinct = distinct op text."
     }
 
@@ -532,6 +532,46 @@ impl Module for M {
                     (UNB.0 as i64, UNB.1 as i64, UNB.2 as i64, UNB.3 as i64)
                 };
                 emit(format!("rrect.styled {} {} {} {} {} {} {} {} {}", g, f, s, sw, a, b.0, b.1, b.2, b.3));
+            }
+            // seeded random tall-thin / wide-flat shapes with one or two ELONGATED corner radii (the family of the known
+            // finding `:confined-radii`, here not hand-built: random sides, radii, corners, widths, alignments, positions
+            // and colour options), so that the classifier `escape_explained` + the predicted painted values are
+            // exercised on shapes they were not written for. Every failure of this family must come out with a
+            // suffixed class; an unsuffixed one is a VIOLATION (the classifier is too narrow, or something else is wrong).
+            let n = if quick { 500 } else { 6000 };
+            let copts: [(&str, &str); 3] = [("7", "9"), ("7", "-"), ("-", "9")];
+            for i in 0..n {
+                let short = rng.range(2, 9);
+                let long = rng.range(12, 64);
+                let transposed = rng.chance(1, 2);
+                let (w, h) = if transposed { (long, short) } else { (short, long) };
+                let mut r = [(0u32, 0u32); 4];
+                let ncorner = if rng.chance(1, 3) { 2 } else { 1 };
+                for _ in 0..ncorner {
+                    let k = rng.below(4) as usize;
+                    // half of them near the exact fit (radius = the whole side: the stroke area's radii stay, the fill
+                    // area's are rescaled), the rest anywhere from half the side to twice the side
+                    let (rs, rl) = if rng.chance(1, 2) {
+                        (rng.range(short, short + 1) as u32, rng.range(long, long + 2) as u32)
+                    } else {
+                        (rng.range(1, short + 3) as u32, rng.range(long / 2, 2 * long) as u32)
+                    };
+                    r[k] = if transposed { (rl, rs) } else { (rs, rl) };
+                }
+                if rng.chance(1, 4) {
+                    for k in 0..4 {
+                        if r[k] == (0, 0) {
+                            r[k] = (rng.range(0, 2) as u32, rng.range(0, 2) as u32);
+                        }
+                    }
+                }
+                let width = rng.range(1, (short / 2 + 1).min(3));
+                let a = rng.below(3);
+                let (x, y) = (rng.range(-9, 9), rng.range(-9, 9));
+                let g = format!("{} {} {} {} {}", x, y, w, h, radii_toks(&r));
+                emit(format!("rrect.areas {} {} {}", g, width, a));
+                let (f, s) = copts[i % 3];
+                emit(format!("rrect.styled {} {} {} {} {} -40 -40 160 160", g, f, s, width, a));
             }
         }
     }
@@ -856,7 +896,11 @@ impl Module for M {
                         .filter(|k| r1.rec.map.get(*k) != r3.rec.map.get(*k))
                         .map(|(y, x)| Point::new(*x, *y))
                         .collect();
-                    let explained = conf && !diff.is_empty() && diff.iter().all(|p| escape_explained(&sa, &fa, *p));
+                    // ... and at such a point the mechanism predicts the two values: `draw()` paints the fill colour
+                    // (scanline of the fill area), `pixels()` nothing
+                    let explained = conf
+                        && !diff.is_empty()
+                        && diff.iter().all(|p| escape_explained(&sa, &fa, *p) && fill.is_some() && r1.rec.map.get(&(p.y, p.x)).copied() == fill && r3.rec.map.get(&(p.y, p.x)).is_none());
                     let cls = if explained { "rrect-paths-differ:draw-pixels:confined-radii" } else { "rrect-paths-differ:draw-pixels" };
                     ctx.expect(diff.is_empty(), cls, || format!("draw {} pixels {}", r1.rec.fmt_map(), r3.rec.fmt_map()));
                 }
@@ -887,7 +931,10 @@ impl Module for M {
                             painted += 1;
                         }
                         if got != want {
-                            if confined && escape_explained(&sa, &fa, p) {
+                            // known mechanism: a point of fill_area \ stroke_area is not on any scanline of the stroke
+                            // area, so it is left UNPAINTED (expected: the fill colour); any other value there is not
+                            // the known finding
+                            if confined && escape_explained(&sa, &fa, p) && got.is_none() {
                                 bad_confined = Some((p, got, want));
                             } else {
                                 bad = Some((p, got, want));
@@ -897,7 +944,9 @@ impl Module for M {
                         if a == 0 && got.is_some() && !rr.contains(p) {
                             // (Inside alignment: stroke area = the shape) the known mechanism: a painted point of
                             // fill_area \ stroke_area of a shape with rescaled radii
-                            if confined && escape_explained(&sa, &fa, p) {
+                            // (the painted value must be what the mechanism predicts: the FILL colour, from a scanline of
+                            // the fill area drawn without a stroke colour; a stroke-coloured pixel there is something else)
+                            if confined && escape_explained(&sa, &fa, p) && got == fill {
                                 inside_viol_confined = Some(p);
                             } else {
                                 inside_viol = Some(p);
